@@ -11,6 +11,7 @@ functions, chain()/zip(repeat()) plumbing and `.extend(generator)` forms have al
 from __future__ import annotations
 
 import ast
+import re
 from dataclasses import dataclass, field
 from typing import Dict, List, Optional, Set, Tuple
 
@@ -146,7 +147,28 @@ class HopSummary:
             last = cn.split(".")[-1]
             if cn == "sorted" and e.args:
                 i = rec(e.args[0])
-                return IterInfo(i.rels, True, i.unknown)
+                # a sort fixes the order only if its key is total on the elements: the default order of nodes (their unique ident) is,
+                # a label / a lower-cased name is not - elements with equal keys keep the order of the set they came from
+                keys = [k.value for k in e.keywords if k.arg == "key"]
+                total = not keys or (isinstance(keys[0], ast.Constant) and keys[0].value is None) or \
+                    bool(re.search(r"\.ident\b|\bid\(|lambda (\w+): \1$", ast.unparse(keys[0])))
+                return IterInfo(i.rels, total, i.unknown)
+            # a helper of the graphs module that returns an expression over its parameters (`_by_label(nodes)`): read through it
+            helper = self._module_funcs().get(cn)
+            if helper is not None and depth < 8:
+                body = [st for st in helper.body if not (isinstance(st, ast.Expr) and isinstance(st.value, ast.Constant))]
+                ps = [a.arg for a in helper.args.args]
+                if len(body) == 1 and isinstance(body[0], ast.Return) and body[0].value is not None and len(e.args) <= len(ps) and not e.keywords:
+                    import copy as _copy
+                    bind = dict(zip(ps, e.args))
+
+                    class _S(ast.NodeTransformer):
+                        def visit_Name(self, n):
+                            return _copy.deepcopy(bind[n.id]) if isinstance(n.ctx, ast.Load) and n.id in bind else n
+
+                        def visit_Lambda(self, n):
+                            return n
+                    return self.iter_info(_S().visit(_copy.deepcopy(body[0].value)), k, depth + 1)
             if cn in ("list", "tuple", "reversed", "iter") and e.args:
                 return rec(e.args[0])
             if cn in ("set", "frozenset") and e.args:
@@ -282,6 +304,12 @@ class HopSummary:
                 conds = conds + [ast.unparse(i) for i in gen.ifs]
             out.append((next(iter(info.rels)), info.sorted, facs, conds))
         return out or None
+
+    def _module_funcs(self) -> Dict[str, ast.FunctionDef]:
+        memo = self.py.__dict__.setdefault("_graphs_module_funcs", None)
+        if memo is None:
+            memo = self.py.__dict__["_graphs_module_funcs"] = {n.name: n for n in self.py.modules["graphs"].body if isinstance(n, ast.FunctionDef)}
+        return memo
 
     def _added_elements(self, name: str):
         """[('elem', x)] for `name.append(x)` / `name.add(x)`, [('iter', y)] for `name.extend(y)` / `name += y`"""
